@@ -401,8 +401,8 @@ impl Issuer {
             .collect();
         let disclosures = disclosures?;
 
-        if let Some(max_decoys) = self.max_decoys {
-            let decoy_count = rand::thread_rng().gen_range(1..max_decoys + 1);
+        if let Some(max_decoys) = self.max_decoys.filter(|max_decoys| *max_decoys >= 1) {
+            let decoy_count = rand::thread_rng().gen_range(1..=max_decoys);
             build_decoys(&mut updated_claims, decoy_count)?;
         }
 
